@@ -34,6 +34,9 @@ type Program struct {
 	// model's engine_execute only sees lock time, version and the tested input's sequence)
 	ExtraIn  int `json:"extra_in,omitempty"`
 	ExtraOut int `json:"extra_out,omitempty"`
+	// ScriptsApart: the unlocking script is handed over with WithScripts only; the tested input of the transaction
+	// carries none (an unsigned transaction checked against a candidate script)
+	ScriptsApart bool `json:"scripts_apart,omitempty"`
 }
 
 func (p *Program) Fix() *Program {
@@ -111,6 +114,44 @@ type Recorder struct {
 	Incons     string
 	inOp       bool
 	opS, opIdx int
+	// held: the State values handed to the callbacks, kept as a step-back debugger keeps them, with a checksum of
+	// what their stacks held at that moment; CheckHeld looks at them again after the run
+	held []heldState
+}
+
+type heldState struct {
+	st  *interpreter.State
+	ev  string
+	n   int
+	sum uint64
+}
+
+func stateSum(s *interpreter.State) uint64 {
+	h := uint64(14695981039346656037)
+	mix := func(b byte) { h ^= uint64(b); h *= 1099511628211 }
+	for _, st := range [][][]byte{s.DataStack, s.AltStack, s.SavedFirstStack} {
+		mix(byte(len(st)))
+		for _, it := range st {
+			mix(byte(len(it)))
+			mix(byte(len(it) >> 8))
+			for _, b := range it {
+				mix(b)
+			}
+		}
+	}
+	return h
+}
+
+// CheckHeld: a State handed to a callback is the debugger's to keep: what it showed then it shows for ever,
+// whatever the engine does afterwards (and whatever later snapshots are taken).
+func (r *Recorder) CheckHeld() {
+	for _, h := range r.held {
+		if stateSum(h.st) != h.sum {
+			r.flag(fmt.Sprintf("the State handed to callback %s (number %d of the run) no longer shows the stacks it showed then: data stack now %x", h.ev, h.n, h.st.DataStack))
+			break
+		}
+	}
+	r.held = nil
 }
 
 func cp(x [][]byte) [][]byte {
@@ -156,6 +197,9 @@ func (r *Recorder) ev(n string, s *interpreter.State) {
 				r.flag(fmt.Sprintf("%s: State is at %d:%d while instruction %d:%d is executing", n, s.ScriptIdx, s.OpcodeIdx, r.opS, r.opIdx))
 			}
 		}
+	}
+	if s != nil && !r.Scribble && len(r.held) < 400 {
+		r.held = append(r.held, heldState{s, n, len(r.held), stateSum(s)})
 	}
 	if r.Scribble && s != nil {
 		scribble(s)
@@ -280,14 +324,18 @@ func Build(p *Program, dbg interpreter.Debugger) *Built {
 		}
 		in := &bt.Input{PreviousTxOutIndex: 0, SequenceNumber: p.InSeq}
 		_ = in.PreviousTxIDAdd(make([]byte, 32))
-		in.UnlockingScript = b.Unlock
+		if !p.ScriptsApart {
+			in.UnlockingScript = b.Unlock
+		}
 		tx.Inputs = append(tx.Inputs, in)
 		tx.Outputs = append(tx.Outputs, &bt.Output{Satoshis: 1, LockingScript: bscript.NewFromBytes([]byte{0x51})})
 		for k := 0; k < p.ExtraOut; k++ {
 			tx.Outputs = append(tx.Outputs, &bt.Output{Satoshis: uint64(1000 + k), LockingScript: bscript.NewFromBytes([]byte{0x76, 0xa9, byte(k)})})
 		}
 		b.Tx = tx
-		if p.HasPrev {
+		if p.HasPrev && p.ScriptsApart {
+			b.Opts = append(b.Opts, interpreter.WithTx(tx, p.ExtraIn, &bt.Output{Satoshis: 1000, LockingScript: b.Lock}), interpreter.WithScripts(b.Lock, b.Unlock))
+		} else if p.HasPrev {
 			b.Opts = append(b.Opts, interpreter.WithTx(tx, p.ExtraIn, &bt.Output{Satoshis: 1000, LockingScript: b.Lock}))
 		} else {
 			b.Opts = append(b.Opts, interpreter.WithTx(tx, p.ExtraIn, nil), interpreter.WithScripts(b.Lock, b.Unlock))
@@ -320,6 +368,7 @@ func RunWith(p *Program, rec *Recorder) Result { return RunBuilt(Build(p, rec), 
 // RunBuilt executes already built options (the caller keeps b to inspect its buffers afterwards).
 func RunBuilt(b *Built, rec *Recorder) Result {
 	obs, msg := exec(b)
+	rec.CheckHeld()
 	tb := 0
 	for _, sn := range rec.Snaps {
 		tb += 8
